@@ -5,6 +5,7 @@ import GldapModel.Gldap.Response
 import GldapModel.Gldap.Mux
 import GldapModel.Directory.Bind
 import GldapModel.Runtime.Writer
+import GldapModel.Runtime.ConnLoop
 /-! `gmodel`: one line in, one line out. The Go harness feeds the same cases to the real
     gldap and to this driver and diffs the two output streams. -/
 open Ber Gldap Driver
@@ -191,6 +192,53 @@ def doTraceWriter (evs : List Ev) : String :=
   | some r => r
   | none => "accept"
 
+def connEvOf (e : Ev) : Option ConnLoop.Ev :=
+  match e.label with
+  | "conn.start" => some .start
+  | "loop.head" => some (.head e.req)
+  | "loop.shutdown" => some (.shutdown e.req)
+  | "loop.read" => some (.read e.req)
+  | "loop.readerr" => some (.readerr e.req)
+  | "loop.unbind" => some (.unbind e.req)
+  | "loop.inline" => some (.inline e.req)
+  | "loop.inlinedone" => some (.inlinedone e.req)
+  | "loop.spawn" => some (.spawn e.req)
+  | "req.start" => some (.reqStart e.req)
+  | "req.done" => some (.reqDone e.req)
+  | "conn.init" => some .init
+  | "conn.recovered" => some .recovered
+  | "conn.teardown" => some .teardown
+  | "conn.wgdone" => some .wgdone
+  | "conn.netclose" => some .netclose
+  | "conn.closed" => some .closed
+  | "conn.onclose" => some .onclose
+  | "conn.oncloseend" => some .oncloseend
+  | "conn.gone" => some .gone
+  | _ => none
+
+/-- replay one connection's events through the connection automaton under the extracted facts -/
+def replayConn (F : ConnLoop.Facts) (c : Nat) (evs : List Ev) : String := Id.run do
+  let mut s := ConnLoop.init
+  let mut i := 0
+  for e in evs do
+    match connEvOf e with
+    | none => pure ()
+    | some ce =>
+      match ConnLoop.step F s ce with
+      | none => return s!"reject conn={c} at={i} event={e.label}:{e.req} phase={repr s.phase}"
+      | some s' => s := s'
+    i := i + 1
+  return "accept"
+
+def doTraceConn (evs : List Ev) : String :=
+  let evs := evs.filter (fun e => e.conn > 0 && (connEvOf e).isSome)
+  if evs.isEmpty then "no-trace" else
+  let conns := (evs.map (·.conn)).eraseDups
+  let results := conns.map fun c => replayConn Generated.connFacts c (evs.filter (·.conn == c))
+  match results.find? (· ≠ "accept") with
+  | some r => r
+  | none => "accept"
+
 def handle (line : String) : String :=
   match (line.splitOn " ").filter (· ≠ "") with
   | ["ber", h] => match unhex h with
@@ -239,6 +287,9 @@ def handle (line : String) : String :=
     | _, _, _, _ => "bad-input"
   | "trace" :: "writer" :: evs => match evs.mapM parseEv with
     | some es => doTraceWriter es
+    | none => "bad-input"
+  | "trace" :: "conn" :: evs => match evs.mapM parseEv with
+    | some es => doTraceConn es
     | none => "bad-input"
   | ["behera", g, e, c] =>
     match parseOptNat g, parseOptNat e, parseOptNat c with
